@@ -14,3 +14,4 @@ import GoguVerif.Theorems.C01
 import GoguVerif.Theorems.C02
 import GoguVerif.Theorems.C05
 import GoguVerif.Theorems.C06
+import GoguVerif.Theorems.C18
